@@ -13,6 +13,7 @@ import (
 	"log"
 	"os"
 	"sort"
+	"strings"
 	"time"
 
 	"github.com/go-critic/go-critic/linter"
@@ -301,7 +302,7 @@ func corpusNeeds(todo []*simapi.RunConfig) []string {
 	set := map[string]bool{}
 	for _, c := range todo {
 		for _, v := range c.Visits {
-			set[v.Pkg] = true
+			set[strings.TrimPrefix(v.Pkg, "ref:")] = true
 		}
 		for _, n := range extraNeeds(c) {
 			set[n] = true
